@@ -70,6 +70,10 @@ CHECKS = {
    technique="exhaustive enumeration plus property-based testing of the simultaneous-probe comparison (Probe::insert_record / tiebreaking through the component facade) against the RFC 6762 8.2 order computed independently and against itself with the sides swapped; stateful simulation of two or three real daemons contesting the same instance and host name on one link (dense grid of start offsets x probe jitters enumerated, generated beyond that), and of one daemon attacked by a scripted peer at every probe step; every packet of every daemon is decoded independently and judged against the names the daemon held at that moment",
    text="Exploration: all 79x79 pairs of record sets (size <= 2) x 4 orders enumerated, 1e6 generated pairs of 0-3 records; 3618 enumerated two-daemon duels (offset 0..2000 ms step 10 x 9 jitter pairs x 2 data orders) and 1.2e4 generated duels of 2-3 daemons over 12 instance / 9 host labels; 1.2e4 generated histories with 1-4 injected conflicts or peer probes. Judged: exactly one holder of each contested name, pairwise distinct final names of the documented form, NameChange events, three probes before a new name is claimed, one second of silence after a lost comparison, no response record under a name not (or no longer) held, SRV target and port, answers to PTR/SRV/A/ANY questions afterwards, goodbyes.",
    note="Trusted: simulation hooks (lock-step gate, virtual clock, captured egress, injected ingress, scripted jitter), component facade, refdns. Two known findings are excluded by signature (escaped instance labels; one-record-type-at-a-time renaming under single-type attacks by a scripted peer)."),
+ "C15": dict(engine=E3, design="6/C15",
+   technique="property-based testing over the public API (calls with strings generated near valid ones by character-level edits, and boundary numbers, each under catch_unwind) and over datagram sequences (targeted messages with hostile labels about the names the daemon is busy with, their byte-level mutations, and the C01 datagram families) against one real daemon in lock-step simulation, followed by virtual time for deferred work and a liveness oracle: no panic in the caller, daemon thread alive, status() Running, a fresh browse served, the service registered at the start still answered for",
+   text="Exploration: 2.5e4 generated API histories of 1-7 calls (17 kinds of call; about half of all calls are refused with an error, the others accepted) and 2.5e4 generated histories of 1-11 datagrams on a daemon with a browse, a host name search and a registration running (a control registration whose label overflows 63 bytes when a conflict suffix is added, incl. multi-byte characters at the cut), each followed by 12 s of virtual time.",
+   note="Trusted: simulation hooks, panic recorder. The crate is built with overflow checks and debug assertions on. get_ip_check_interval() (blocks the calling thread until the daemon answers) and the cfg(test)-only test_up/down_interface are not called."),
 }
 
 def check_entry(pid, c):
